@@ -799,6 +799,8 @@ def c15(v, tier, seed):
         n = 0
         tag = "[%s] " % name
         n += pdu.replay(v, ex, bind, sets["pdu"], "C15", tier, rnd, places=places, tag=tag)["executed"]
+        # a placement is also a kind of memory: readers work on a PDU in read-only memory (a mapped capture, a constant test vector)
+        n += pdu.replay(v, ex, bind, [x for x in sets["pdu"] if x["op"] == "get"], "C15", tier, rnd, places=[("R", 0)], tag=tag)["executed"]
         n += hostx.raw_replay(v, ex, sets["raw"], rnd, "build=%s" % name if False else "native", places=places)["executed"]
         n += can.replay(v, ex, sets["can"], rnd, places=places_can, tag=tag)["executed"]
         n += vss.replay(v, ex, sets["vss"], rnd, places=places2, tag=tag)["executed"]
@@ -887,6 +889,12 @@ def c16(v, tier, seed):
     L = layout["hdrlen"]
     shared = pdu.rand_bytes(rnd, 32)
     lines = ["S 0 " + hexs(shared)]
+    # source arrays that every thread encodes from (read-shared inputs of the encoder)
+    sarrs = []
+    for k_, dt_ in enumerate((134, 138, 132, 130)):
+        val_ = vss.rand_value(rnd, dt_)
+        while len(val_) < 16: val_ = vss.rand_value(rnd, dt_)
+        sarrs.append((dt_, val_)); lines.append("A %d %d %s" % (k_, dt_, hexs(val_)))
     evs = {t: [] for t in range(nthr)}
     for t in range(nthr):
         lines.append("T %d" % t)
@@ -905,6 +913,12 @@ def c16(v, tier, seed):
                 p = rnd.choice(paths)
                 lines.append("D S %s get %s %d 0000000000000000 0" % (view, p, bind.fidx[view][field]))
                 evs[t].append({"e": "op", "buf": 7, "base": 0, "op": "get", "view": view, "field": field, "path": p, "val": v64(0), "id": "", "pre": shared})
+            elif k < 0.16:    # encode one of the shared source arrays into a private message
+                k_ = rnd.randrange(4); dt_, val_ = sarrs[k_]
+                lead = rnd.randrange(4)
+                msg = pdu.rand_bytes(rnd, lead) + vss.hdr_bytes(rnd, 1, dt_) + [1, 2, 3, 4] + pdu.rand_bytes(rnd, 2 + len(val_) + 3)
+                lines.append("W %d %d %s" % (k_, lead, hexs(msg)))
+                evs[t].append({"e": "vss", "op": "putdata", "arg": val_, "n": 0, "base": lead, "pre": msg, "mode": 1, "dt": dt_})
             elif k < 0.30:    # VSS decode of a private message with thread-specific content
                 dt = rnd.choice([128, 129, 130, 131, 132, 133, 134, 135, 136, 137, 138, 139, 11, 2, 6, 10])
                 val = vss.rand_value(rnd, dt)
@@ -973,7 +987,7 @@ def c16(v, tier, seed):
                     pe.append(dict(e, post=unhexs(tk[5]), ret=unhexs(tk[2]), rc=-int(tk[3]), out=unhexs(tk[4])))
                 else:
                     o = vss.parse(line)
-                    ve.append({"e": "vss", "op": "getdata", "arg": [], "n": e["n"], "base": e["base"], "pre": e["pre"], "post": unhexs(o["post"]),
+                    ve.append({"e": "vss", "op": e["op"], "arg": e["arg"], "n": e["n"], "base": e["base"], "pre": e["pre"], "post": unhexs(o["post"]),
                                "ret": 0, "len": int(o["len"]), "bytes": unhexs(o["data"]), "mode": e["mode"], "dt": e["dt"]})
             pdu_shards.append(pe); vss_shards.append(ve)
         pdu.validate_events(v, wd, pdu_shards, "C16", "thread-log-run%d" % run, independent=False,
@@ -1164,8 +1178,8 @@ def listener_queues(v, wd, pid, seed, q, exes=None):
         exe = (exes or {}).get(kind) or xprog.build_xh(wd, LISTENERS[kind], sanitize=True)
         scns = []
         for nm, depth, sim in (("bfs", 2, None), ("simulate", 24 if q else 60, "num=%d" % (4 if q else 60))):
-            cfg = ('SPECIFICATION GSpec\nCONSTANTS\n  Buf = {1}\n  Kind = "%s"\n  Depth = %d\n  Rand = %s\nCONSTRAINT EmitScn\nINVARIANT Fifo\nINVARIANT Ordered\nCHECK_DEADLOCK FALSE\n'
-                   % (kind, depth, "TRUE" if sim else "FALSE"))
+            cfg = ('SPECIFICATION GSpec\nCONSTANTS\n  Buf = {1}\n  Kind = "%s"\n  Depth = %d\n  Rand = %s\n  NowNsec = %d\nCONSTRAINT EmitScn\nINVARIANT Fifo\nINVARIANT Ordered\nCHECK_DEADLOCK FALSE\n'
+                   % (kind, depth, "TRUE" if sim else "FALSE", ((395812103 << 32) % 10 ** 9)))
             res = run_tlc("GenListener", cfg, wd, simulate=sim, extra_args=(["-seed", str(seed)] if sim else []), timeout=900)
             v.add_tlc("GenListener/%s/%s" % (kind, nm), res)
             if not res.ok: raise Infra("StreamListener violates Fifo/Ordered: " + (res.violation or "")[-800:])
